@@ -189,14 +189,19 @@ def run(ctx):
     cu = job_table.counter_updates(rj)
     ctx.floor('R10.6', len(cu), 4, 'counter increments in restore_job')
     want = {'Finished': 'n_finished_tasks', 'Failed': 'n_failed_tasks', 'Canceled': 'n_canceled_tasks', 'Aborted': 'n_aborted_tasks'}
+    flows_ = rj.variant_flow(JTS)
+    # the restorer-side scrutinee (task.state of RestorerTaskInfo): the one that distinguishes the terminal states at the increments
+    rkeys = [k for k, st in flows_.items() if all(st.get(x[0]) is not None and len(st.get(x[0])) == 1 and set(st.get(x[0])) <= set(want) for x in cu)]
+    ctx.require(len(rkeys) == 1, f'R10.6: restorer-state scrutinee not identified ({list(flows_)})')
+    rkey = rkeys[0]
     for bi, s, field, sign, amount in cu:
-        vs = variants_at(rj, JTS, bi)
+        vs = variants_at(rj, JTS, bi, rkey)
         exp = [k for k, v in want.items() if v == field]
         ctx.ob('R10.6', f'restore_job|{field}', sign == '+' and vs is not None and set(vs) == set(exp) and amount and amount.startswith('1_'),
                f'{field} is incremented by 1 exactly for a restored {exp} task (observed arm {sorted(vs) if vs else vs})', rj.loc(bi, s))
     sw = [(bi, s) for bi, s, pl, fs in rj.field_writes() if fs and fs[-1][0] == 'state' and fs[-1][1] == HQ + 'job::JobTaskInfo']
     ctx.require(sw, 'R10.6: job_task.state write missing')
-    vs = variants_at(rj, JTS, sw[0][0])
+    vs = variants_at(rj, JTS, sw[0][0], rkey)
     ctx.ob('R10.6', 'restore_job|state copied for terminal', vs is not None and set(vs) == set(want), f'the restored state is copied exactly for terminal tasks (Waiting/Running are resubmitted) (observed {sorted(vs) if vs else vs})', rj.loc(sw[0][0], sw[0][1]))
     # once per task: the counting loop must not be re-run per submit over all tasks
     inc_blocks = [x[0] for x in cu]
@@ -209,10 +214,22 @@ def run(ctx):
         item_outer = _loop_item(rj, outer)
         it_inner = _loop_iter_source(rj, inner)
         dep = bool(item_outer is not None and it_inner is not None and item_outer in rj.derived_from(it_inner, through_mutation=False))
-        once = dep
-        detail = dict(inner_header=rj.loc(inner), outer_header=rj.loc(outer), inner_iter_depends_on_outer_item=dep)
+        # ... unless the increments are guarded by the LIVE task still being in its initial state (so a task restored
+        # while processing an earlier submit is skipped)
+        restorer_keys = set()
+        for bi_ in inc_blocks:
+            pass
+        guarded = False
+        for key, st in rj.variant_flow(JTS).items():
+            if key == rkey:
+                continue
+            vs_inc = [st.get(x) for x in inc_blocks]
+            if all(v is not None and set(v) == {'Waiting'} for v in vs_inc):
+                guarded = True
+        once = dep or guarded
+        detail = dict(inner_header=rj.loc(inner), outer_header=rj.loc(outer), inner_iter_depends_on_outer_item=dep, guarded_by_live_state_waiting=guarded)
     ctx.ob('R10.6', 'restore_job|each outcome counted once', once,
-           'the counter increments sit in a loop over ALL tasks of the job nested in the per-submit loop and do not depend on the submit: a job restored from several submits counts the terminal tasks of earlier submits again',
+           'the counter increments sit in a loop over ALL tasks of the job nested in the per-submit loop; they must depend on the submit or be guarded by the live task still being Waiting, otherwise a job restored from several submits counts the terminal tasks of earlier submits again',
            rj.loc(inc_blocks[0]), detail)
 
 
